@@ -15,7 +15,8 @@ RULE = ("Hypothesis draws an arc/line tissue or sub-tissue (also with cells that
         "vector assigned directly to the interfaces (analytic, or random for the linearity clause); five sub-checks: "
         "(1) each equation = +-1 on the two cells with the centre-of-curvature cell on the positive side of a "
         "positive right-hand side, (2) turning estimate law, (3) independence of stored directions, (4) zero-sum "
-        "least-squares solution, linearity, zero for cells without interface, (5) correlation >= 0.9 with analytic "
+        "least-squares solution, linearity (also after re-assigning tensions and rebuilding on the same object), zero "
+        "for cells without interface, (5) correlation >= 0.9 with analytic "
         "Young-Laplace pressures on equilibrium Moebius tissues. Non-trivial = >= 4 cells with interfaces and an "
         "interface with turning >= 0.05; distinct = fingerprint of drawn parameters.")
 ASSUMPTIONS = [
@@ -214,6 +215,15 @@ def check_case(p, ctx):
         lin = 2.0 * pres + 3.0 * res[0]
         if np.max(np.abs(res[1] - lin)) > 1e-7 * max(np.max(np.abs(lin)), 1e-300):
             return ctx.violation("not-linear-in-tensions", p, observed=res[1][:5].tolist(), expected=lin[:5].tolist())
+        # the same object again after its interfaces received other tensions: equations are those of the new tensions
+        for k, be in enumerate(frame.internal_big_edges):
+            be.tension = float(Tc[ridge_of[k]])
+        call(fsys.build_pressure_matrix, when=0)
+        call(fsys.solve_pressure, when=0, method="lagrange_pressure")
+        again = np.array([frame.cells[c].pressure for c in order], dtype=float)
+        if np.max(np.abs(again - res[1])) > 1e-9 * np.max(np.abs(res[1])) + 1e-12 * max(Tc.values()):
+            return ctx.violation("rebuilt-system-ignores-new-tensions", p, observed=again[:5].tolist(),
+                                 expected=res[1][:5].tolist())
         ctx.count("solution+linearity-checked")
     # ---- (5) physics
     if connected and p["tension_mode"] == "analytic":
